@@ -35,7 +35,7 @@ impl Profile {
         Profile { rules: (4, 7), depth: 3, stack_ops: 1, predicates: 3, counted: 1, unicode: true, kinds: true, ws: None, comment: Some(false), shadow: false, skip_rule_kinds_k1: false }
     }
     pub fn stack() -> Self {
-        Profile { rules: (3, 6), depth: 3, stack_ops: 6, predicates: 3, counted: 1, unicode: false, kinds: true, ws: None, comment: Some(false), shadow: false, skip_rule_kinds_k1: false }
+        Profile { rules: (3, 6), depth: 3, stack_ops: 6, predicates: 3, counted: 1, unicode: false, kinds: true, ws: None, comment: None, shadow: false, skip_rule_kinds_k1: false }
     }
 }
 
@@ -278,11 +278,15 @@ fn skip_rules(rng: &mut Rng, p: &Profile, rules: &mut Vec<Rule>) {
     let cm = p.comment.unwrap_or_else(|| rng.chance(2, 5));
     if ws {
         let kind = *rng.pick(&[Kind::Silent, Kind::Silent, Kind::Normal, Kind::Atomic, Kind::Compound]);
-        let expr = match rng.below(4) {
+        let expr = match rng.below(7) {
             0 => Expr::Str(" ".into()),
             1 => choice(vec![Expr::Str(" ".into()), Expr::Str("\t".into())]),
             2 => choice(vec![Expr::Str(" ".into()), Expr::Ident("NEWLINE".into())]),
-            _ => Expr::RepOnce(Box::new(Expr::Str(" ".into()))),
+            3 => Expr::RepOnce(Box::new(Expr::Str(" ".into()))),
+            // skip rules with an inner sequence / optional: only atomic matching gets them right
+            4 => choice(vec![Expr::Str(" ".into()), seq(vec![Expr::Str("\\".into()), Expr::Ident("NEWLINE".into())])]),
+            5 => seq(vec![Expr::Str(" ".into()), Expr::Opt(Box::new(Expr::Str("\t".into())))]),
+            _ => choice(vec![Expr::Str(" ".into()), seq(vec![Expr::Str("/*".into()), Expr::Rep(Box::new(seq(vec![Expr::NegPred(Box::new(Expr::Str("*/".into()))), Expr::Ident("ANY".into())]))), Expr::Str("*/".into())])]),
         };
         rules.push(Rule { name: "WHITESPACE".into(), kind, expr });
     }
@@ -295,10 +299,13 @@ fn skip_rules(rng: &mut Rng, p: &Profile, rules: &mut Vec<Rule>) {
                 Expr::Str(close.into()),
             ])
         };
-        let expr = match rng.below(3) {
+        let expr = match rng.below(if p.stack_ops > 0 { 5 } else { 3 }) {
             0 => body("#", "#"),
             1 => body("/*", "*/"),
-            _ => seq(vec![Expr::Str("//".into()), Expr::Rep(Box::new(Expr::Range('a', 'z')))]),
+            2 => seq(vec![Expr::Str("//".into()), Expr::Rep(Box::new(Expr::Range('a', 'z')))]),
+            // skip rules that use the stack and can fail after changing it
+            3 => seq(vec![Expr::Str("<".into()), Expr::Push(Box::new(Expr::RepOnce(Box::new(Expr::Str("!".into()))))), Expr::Str("-".into()), Expr::Ident("POP".into()), Expr::Str(">".into())]),
+            _ => seq(vec![Expr::Str("<".into()), Expr::Push(Box::new(Expr::Range('a', 'b'))), Expr::Opt(Box::new(Expr::Ident("PEEK".into()))), Expr::Str(">".into()), Expr::Ident("DROP".into())]),
         };
         rules.push(Rule { name: "COMMENT".into(), kind, expr });
     }
